@@ -4,10 +4,13 @@ ALL PROVED.
 * `ws_frame_roundtrip`: the RFC 6455 reference parser `parseFrame` (Lemmas/WsSend.lean) reads `createFrame 2 data key 1`
   back as a FIN, RSV=0, opcode 2, masked frame with key `key` whose unmasked payload is `data`, and leaves exactly what
   followed the frame — for every `data` shorter than 2^64 bytes (the 125/126 and 65535/65536 boundaries included).
-* `ws_send_stream`: for every sequence of `_send_impl` calls that keeps the retry discipline of `_packet_write`, with
-  arbitrary mask keys and arbitrary amounts accepted by the raw socket, the bytes on the raw socket are the
+* `ws_send_stream`: for every sequence of `_send_impl` calls that keeps the retry discipline of `_packet_write` (same
+  data again after a 0 AND after an exception), with arbitrary mask keys and arbitrary behaviour of the raw socket in
+  each call (takes k bytes / raises BlockingIOError / raises another OSError), the bytes on the raw socket are the
   concatenation of the frames of the sends started, cut at the number of bytes accepted; at most the last frame is
-  incomplete; a call returns `len(data)` exactly when its frame is completely accepted and 0 otherwise.
+  incomplete; a call returns `len(data)` exactly when its frame is completely accepted, 0 when the socket took bytes
+  but not all, and raises exactly when the raw send raised — in which case nothing is written and the frame in flight
+  (created by this very call if none was pending) stays in `_sendbuffer` (`ws_send_raise_keeps_frame`).
 Model: Paho/Model/Ws.lean. Helper lemmas: PahoProofs/Lemmas/WsBytes.lean, WsSend.lean.
 -/
 import Paho.Model.Ws
@@ -87,13 +90,15 @@ example : (createFrame 2 (List.replicate 126 7) [1, 2, 3, 4] 1).length = 134 := 
 /-! ## the stream of `_send_impl` calls -/
 
 /-- **C06Ws (stream).** `cs` is any sequence of `_send_impl` calls on a fresh wrapper (data, the 4 bytes `os.urandom`
-returned, the number of bytes the raw socket took) in which a call that returned 0 is followed by a call with the same
-data. With `s := refRun 0 cs` (the byte-counting reference: a call starts the frame `createFrame 2 data key 1` iff the
-previous frame is completely accepted; the socket takes `min accept remaining`):
+returned, what the raw `socket.send` did: `accept k` / `wouldBlock` / `error`) in which a call that returned 0 or raised
+is followed by a call with the same data. With `s := refRun 0 cs` (the byte-counting reference: a call starts the frame
+`createFrame 2 data key 1` iff the previous frame is completely accepted — also when its raw send then raises; the
+socket takes `min k remaining`, nothing when it raises):
 * the bytes on the raw socket are the concatenation of the frames of the sends started, cut after the accepted bytes;
 * what is left of it is exactly `_sendbuffer`;
 * the socket never took more than was framed, and the unsent part fits in the last frame (every earlier frame is complete);
-* the return values are those of the reference: `len(data)` when the call's frame is now completely accepted, else 0. -/
+* the outcomes are those of the reference: `len(data)` when the call's frame is now completely accepted, 0 when the
+  socket took some bytes but not the rest, the socket's exception when it raised. -/
 theorem ws_send_stream (cs : List Call) (hd : Disciplined {} cs) :
     let r := runSend {} cs
     let s := refRun 0 cs
@@ -113,31 +118,79 @@ theorem ws_send_stream (cs : List Call) (hd : Disciplined {} cs) :
   · have e : (({} : SendSt).sendbuffer).length = 0 := rfl
     rw [e] at h4; rw [h4]; exact hl
 
-/-- the return value of each call, spelled out: with the discipline it is `len(data)` of THIS call iff the frame in
-flight is complete after it (first step of `refRun`) -/
+/-- the outcome of each call, spelled out (first step of `refRun`): with the discipline it is `len(data)` of THIS call
+iff the socket takes all that is left of the frame in flight, 0 if it takes less, and the socket's exception if it raises -/
 theorem refRun_ret_head (rem : Nat) (c : Call) (cs : List Call) :
     (refRun rem (c :: cs)).rets.head? =
-      some (if (if rem = 0 then (createFrame 2 c.data c.key 1).length else rem) ≤ c.accept then c.data.length else 0) := by
+      some (match c.out with
+        | .accept a =>
+          .ret (if (if rem = 0 then (createFrame 2 c.data c.key 1).length else rem) ≤ a then c.data.length else 0)
+        | .wouldBlock => .raised true
+        | .error => .raised false) := by
   simp only [refRun, List.head?_cons]
   congr 1
-  by_cases h : (if rem = 0 then (createFrame 2 c.data c.key 1).length else rem) ≤ c.accept
-  · rw [if_pos h, if_pos (by rw [Nat.min_eq_right h]; omega)]
-  · rw [if_neg h, if_neg]
-    · have hk := createFrame_masked_length_ge 2 c.data c.key
-      split at h <;> split <;> omega
+  cases hc : c.out with
+  | wouldBlock => rfl
+  | error => rfl
+  | accept a =>
+    simp only [outcome, taken]
+    have hk := createFrame_masked_length_ge 2 c.data c.key
+    generalize hL : (if rem = 0 then (createFrame 2 c.data c.key 1).length else rem) = L
+    have hpos : 0 < L := by rw [← hL]; split <;> omega
+    by_cases h : L ≤ a
+    · simp [h]
+    · have hne : L - min a L ≠ 0 := by omega
+      simp [h, hne]
+
+/-- when the raw send raises, `_send_impl` writes nothing, raises, and keeps in `_sendbuffer` the frame in flight —
+the one this very call created if none was pending (that frame, with this call's mask key, is what the retry sends) -/
+theorem ws_send_raise_keeps_frame (st : SendSt) (data key : Bytes) (out : SockSend) (h : out = .wouldBlock ∨ out = .error) :
+    (sendImpl st data key out).1.sendbuffer =
+      (if st.sendbuffer.length = 0 then createFrame 2 data key 1 else st.sendbuffer) ∧
+    (sendImpl st data key out).1.requestedSize = (if st.sendbuffer.length = 0 then data.length else st.requestedSize) ∧
+    (sendImpl st data key out).2.1 = [] ∧
+    (sendImpl st data key out).2.2 = .raised (decide (out = .wouldBlock)) := by
+  rw [sendImpl_eq]
+  rcases h with rfl | rfl
+  · by_cases he : st.sendbuffer.length = 0
+    · have hnil : st.sendbuffer = [] := List.eq_nil_of_length_eq_zero he
+      simp [taken, outcome, hnil]
+    · simp [taken, outcome, he]
+  · by_cases he : st.sendbuffer.length = 0
+    · have hnil : st.sendbuffer = [] := List.eq_nil_of_length_eq_zero he
+      simp [taken, outcome, hnil]
+    · simp [taken, outcome, he]
 
 /-- without the discipline the claim about return values is false: the size returned is the one remembered from the
 call that created the frame -/
 theorem ws_send_undisciplined_ret :
-    (runSend {} [⟨[1, 2, 3], [0, 0, 0, 0], 2⟩, ⟨[9], [0, 0, 0, 0], 100⟩]).rets = [0, 3] := by decide
+    (runSend {} [⟨[1, 2, 3], [0, 0, 0, 0], .accept 2⟩, ⟨[9], [0, 0, 0, 0], .accept 100⟩]).rets = [.ret 0, .ret 3] := by
+  decide
 
 /-- non-vacuity: two messages; the first needs three calls (0 bytes, 4 bytes, the rest), the second goes out at once -/
 example :
-    let cs : List Call := [⟨[1, 2], [0xA, 0xB, 0xC, 0xD], 0⟩, ⟨[1, 2], [5, 5, 5, 5], 4⟩, ⟨[1, 2], [6, 6, 6, 6], 100⟩,
-                           ⟨[7], [1, 1, 1, 1], 100⟩]
-    Disciplined {} cs ∧ (runSend {} cs).rets = [0, 0, 2, 1] ∧
+    let cs : List Call := [⟨[1, 2], [0xA, 0xB, 0xC, 0xD], .accept 0⟩, ⟨[1, 2], [5, 5, 5, 5], .accept 4⟩,
+                           ⟨[1, 2], [6, 6, 6, 6], .accept 100⟩, ⟨[7], [1, 1, 1, 1], .accept 100⟩]
+    Disciplined {} cs ∧ (runSend {} cs).rets = [.ret 0, .ret 0, .ret 2, .ret 1] ∧
     (runSend {} cs).wire = [0x82, 0x82, 0xA, 0xB, 0xC, 0xD, 0xB, 0x9] ++ [0x82, 0x81, 1, 1, 1, 1, 6] ∧
     (refRun 0 cs).frames.length = 2 := by
+  decide
+
+/-- non-vacuity with a raising socket: an 8-byte message (frame of 14 bytes); the socket takes 10 bytes, then is full
+(BlockingIOError), then takes the rest. One frame on the wire, in one piece, with the FIRST call's key; the calls end
+0 / BlockingIOError / 8. Then a message whose first raw send fails with EPIPE, then would-block, then goes out: its
+frame carries the key of the call that raised first. -/
+example :
+    let d : Bytes := [1, 2, 3, 4, 5, 6, 7, 8]
+    let cs : List Call := [⟨d, [0x10, 0x20, 0x30, 0x40], .accept 10⟩, ⟨d, [9, 9, 9, 9], .wouldBlock⟩,
+                           ⟨d, [8, 8, 8, 8], .accept 100000⟩,
+                           ⟨[0xff], [1, 1, 1, 1], .error⟩, ⟨[0xff], [2, 2, 2, 2], .wouldBlock⟩, ⟨[0xff], [3, 3, 3, 3], .accept 7⟩]
+    Disciplined {} cs ∧
+    (runSend {} cs).rets = [.ret 0, .raised true, .ret 8, .raised false, .raised true, .ret 1] ∧
+    (runSend {} cs).wire = createFrame 2 d [0x10, 0x20, 0x30, 0x40] 1 ++ createFrame 2 [0xff] [1, 1, 1, 1] 1 ∧
+    (runSend {} cs).wire = [0x82, 0x88, 0x10, 0x20, 0x30, 0x40, 0x11, 0x22, 0x33, 0x44, 0x15, 0x26, 0x37, 0x48] ++
+                           [0x82, 0x81, 1, 1, 1, 1, 0xfe] ∧
+    (refRun 0 cs).frames.length = 2 ∧ (runSend {} cs).st.sendbuffer = [] := by
   decide
 
 /-! ## outside the theorem: replies written by `_recv_impl` bypass `_sendbuffer` -/
@@ -166,11 +219,11 @@ sent frame. Here: a 5-byte message of which the socket takes 3 bytes (return 0),
 retry completes the message (return 5). On the wire the PONG `8a 00` sits inside the binary frame: the peer parses a
 frame whose payload is not `01 02 03 04 05`. -/
 theorem ws_reply_interleaves_partial_send :
-    let s1 := sendImpl {} [1, 2, 3, 4, 5] [0xa1, 0xa2, 0xa3, 0xa4] 3
+    let s1 := sendImpl {} [1, 2, 3, 4, 5] [0xa1, 0xa2, 0xa3, 0xa4] (.accept 3)
     let r := recvImpl {} [.data [0x89, 0x00]] 1
-    let s2 := sendImpl s1.1 [1, 2, 3, 4, 5] [0xa1, 0xa2, 0xa3, 0xa4] 100
+    let s2 := sendImpl s1.1 [1, 2, 3, 4, 5] [0xa1, 0xa2, 0xa3, 0xa4] (.accept 100)
     let wire := s1.2.1 ++ r.2.2.2.flatten ++ s2.2.1
-    s1.2.2 = 0 ∧ r.2.2.2 = [[0x8a, 0x00]] ∧ s2.2.2 = 5 ∧
+    s1.2.2 = .ret 0 ∧ r.2.2.2 = [[0x8a, 0x00]] ∧ s2.2.2 = .ret 5 ∧
     wire = [0x82, 0x85, 0xa1, 0x8a, 0x00, 0xa2, 0xa3, 0xa4, 0xa0, 0xa0, 0xa0, 0xa0, 0xa4] ∧
     (parseFrame wire).map (fun x => x.1.payload) = some [0x02, 0x2e, 0xa0, 0x02, 0x01] := by
   decide
